@@ -197,6 +197,11 @@ def specs(tier):
         graphs += [(6, es) for es in gr.trees_cached(6)] + [(n, es) for (_, n, es) in gr.regular_graphs()]
     for i in range(0, len(graphs), 10):
         out.append(dict(kind="degree", graphs=graphs[i:i + 10]))
+    # larger node counts: class sizes c with (c/N)*N just below c in floating point (29 of 50, 57 of 100, 1 of 49)
+    def big(ncyc, nmatch, niso, extra=()):
+        es = [(i, (i + 1) % ncyc) for i in range(ncyc)] + [(ncyc + 2 * j, ncyc + 2 * j + 1) for j in range(nmatch)] + list(extra)
+        return (ncyc + 2 * nmatch + niso, es)
+    out.append(dict(kind="degree", graphs=[big(29, 10, 1), big(57, 21, 1), big(46, 1, 1), big(29, 10, 1, extra=[(0, 29)])]))
     small = [(n, es) for n, es in graphs if n <= 4]
     out.append(dict(kind="degree", graphs=small, variant="loops"))
     out.append(dict(kind="degree", graphs=[g for g in small if g[1]], variant="multi"))
